@@ -125,6 +125,16 @@ func initZZ() {
 		}
 		return nil
 	})
+	Z("LocksHeld", func(fr *frame, a []value) value {
+		n := 0
+		for _, m := range fr.e.mutexes {
+			if m.writer != nil {
+				n++
+			}
+			n += m.nreaders()
+		}
+		return n
+	})
 	Z("Steps", func(fr *frame, a []value) value { return int(fr.e.steps) })
 	Z("Stdout", func(fr *frame, a []value) value { return strings.Join(fr.e.stdout, "") })
 	Z("Opaque", func(fr *frame, a []value) value { return fr.e.opaque })
